@@ -3,11 +3,18 @@
 package agent
 
 import (
+	"context"
+	"errors"
 	"time"
 
+	"github.com/jonboulle/clockwork"
+	"github.com/open-telemetry/opamp-go/client"
+	"github.com/open-telemetry/opamp-go/client/types"
+	"github.com/open-telemetry/opamp-go/protobufs"
 	"go.opentelemetry.io/collector/pdata/pmetric"
 
 	zz "github.com/honeycombio/refinery/internal/zzverif"
+	"github.com/honeycombio/refinery/logger"
 )
 
 // ---- models used by the engine only (pdata assembly and JSON marshalling are outside reach):
@@ -133,6 +140,71 @@ func Harness_C34_ledger() {
 		for s := 0; s < 2; s++ {
 			waiting := int64(ur.currentDataPoints[sigs[s]]) + int64(ur.lastDataPoints[sigs[s]])
 			zz.Assert(cum[s] == delivered[s]+waiting, "counter growth = usage delivered by successful sends + usage still waiting to be sent")
+		}
+	}
+}
+
+type verifOpamp struct {
+	client.OpAMPClient
+	delivered [2]int64
+	calls     int
+}
+
+// SendCustomMessage: the environment accepts the message (delivered once the returned channel
+// fires), says another message is still pending (the channel fires when that one has gone out),
+// or fails.
+func (c *verifOpamp) SendCustomMessage(m *protobufs.CustomMessage) (chan struct{}, error) {
+	c.calls++
+	ch := make(chan struct{})
+	close(ch)
+	switch zz.Choose("sendOutcome", 3) {
+	case 0:
+		vals, _ := verifReportContents(m.Data)
+		c.delivered[0] += vals[0]
+		c.delivered[1] += vals[1]
+		return ch, nil
+	case 1:
+		return ch, types.ErrCustomMessagePending
+	}
+	return nil, errVerifSend
+}
+
+var errVerifSend = errors.New("send failed")
+
+// C34 (send path): K rounds of counter growth followed by the agent's real sendUsageReport against an
+// OpAMP client that accepts, reports "another message pending" (once or on the retry too) or fails:
+// after every round, per signal, growth = usage in messages the client accepted + usage still
+// waiting in the tracker. Nothing is cleared unless its message was accepted.
+func Harness_C34_send() {
+	zz.MustCover("(*github.com/honeycombio/refinery/agent.Agent).sendUsageReport",
+		"(*github.com/honeycombio/refinery/agent.usageTracker).completeSend")
+	zz.ExactIntFloats()
+	K := 2
+	if zz.Thorough() {
+		K = 3
+	}
+	zz.Bound("rounds", K)
+	zz.Bound("counter_bits", 40)
+	oc := &verifOpamp{}
+	a := &Agent{clock: clockwork.NewFakeClock(), agentType: "refinery", agentVersion: "v", hostname: "host", opampClient: oc,
+		logger: Logger{Logger: &logger.NullLogger{}}, ctx: context.Background(), usageTracker: newUsageTracker()}
+	sigs := [2]usageSignal{signal_traces, signal_logs}
+	var cum [2]int64
+	for r := 0; r < K; r++ {
+		for s := 0; s < 2; s++ {
+			g := zz.NondetInt64("growth")
+			zz.Assume(g >= 0)
+			zz.Assume(g < 1<<40)
+			cum[s] += g
+			a.usageTracker.Add(sigs[s], float64(cum[s]))
+		}
+		before := oc.calls
+		err := a.sendUsageReport()
+		zz.Observe("sendError", err != nil)
+		zz.Assert(oc.calls-before <= 2, "at most one retry per report")
+		for s := 0; s < 2; s++ {
+			waiting := int64(a.usageTracker.currentDataPoints[sigs[s]]) + int64(a.usageTracker.lastDataPoints[sigs[s]])
+			zz.Assert(cum[s] == oc.delivered[s]+waiting, "counter growth = usage in accepted messages + usage still waiting to be sent")
 		}
 	}
 }
